@@ -144,6 +144,7 @@ def _run(ctx, replay):
         stats['state_checks'] += 1
         if len(h['states']) == 2:
             s0, s1 = [s.split(' | ') for s in h['states']]
+            if s0[1] == 'C.utf8': stats['utf8_locale_held'] = True
             if s0[:2] != s1[:2]:
                 findings.append(dict(kind='locale', what='process locale changed by the history: %s -> %s' % (s0[:2], s1[:2]), ops=ops, env=env, label=label))
             if s0[2] != s1[2]:
@@ -274,11 +275,10 @@ def _run(ctx, replay):
         seen_kinds.add(f['kind'])
         f['min'] = shrink(f)
         if f['kind'] == 'locale':
-            culprit = [o.split(' ')[0].replace('retain-', '') for o in f['min']]
-            fam = set();
+            fam = set()
             for e, c in meta['classes'].items():
                 if 'setlocale' in set().union(*[set(meta['functions'][x]['exts']) for x in sl.closure(meta, e)]): fam.add(e)
-            in_family = len(f['min']) == 1 and culprit[0] in fam
+            in_family = len(f['min']) == 1 and bool(xrlops.exercised(f['min'], meta) & fam)
             if in_family and restoring != 'true' and f['env'].get('LC_NUMERIC') == 'C.utf8':
                 f['key'] = KEY_LOCALE
         hit = [k for k in known if k[0] == f.get('key')]
@@ -288,6 +288,8 @@ def _run(ctx, replay):
     # model vs implementation on the locale: the Lean verdict must agree with what the library does
     if not replay:
         loc_seen = any(f['kind'] == 'locale' for f in findings)
+        if not stats.get('utf8_locale_held'):
+            ctx.notes.append('locale C.utf8 not available in this image: the locale part of the tie was not exercised'); restoring = 'unchecked'
         if restoring == 'true' and loc_seen:
             rep['tie_broken'].append('Lean: every setlocale protocol restores the locale; real library: locale changed')
         if restoring == 'false' and not loc_seen and n_protocols:
